@@ -968,8 +968,8 @@ func pick[T any](rng *rand.Rand, xs ...T) T { return xs[rng.Intn(len(xs))] }
 func bigPow2(k uint) *big.Int { return new(big.Int).Lsh(big.NewInt(1), k) }
 
 func (txcacheComp) Gen(rng *rand.Rand, tier string) [][]string {
-	nh := 150
-	steps := 40
+	nh := 300
+	steps := 50
 	if tier == "thorough" {
 		nh = 4000
 		steps = 60
@@ -998,15 +998,24 @@ func genTxHistory(rng *rand.Rand, steps int, idx int) []string {
 	chunks := pick(rng, 1, 2, 7, 16, 128)
 	h := []string{fmt.Sprintf("begin txcache chunks=%d evict=%s nb=%d nbs=%d c=%d cs=%d n=%d", chunks, b01(evict), nb, nbs, c, cs, n)}
 	nSenders := 2 + rng.Intn(4)
+	if mode == 0 || rng.Intn(3) == 0 {
+		nSenders = 1 + rng.Intn(3) // few senders: long lists, the per-sender mechanisms (trim, prefix removal, byte accounting) interact
+	}
 	var senders, relayers [][]byte
 	for i := 0; i < nSenders; i++ {
 		senders = append(senders, []byte{byte(0xa0 + i), byte(rng.Intn(256))})
 	}
 	relayers = append(relayers, []byte{0xee, 0x01})
-	if rng.Intn(2) == 0 {
+	if rng.Intn(3) != 0 {
 		relayers = append(relayers, senders[0]) // an account that is both sender and relayer
+		if rng.Intn(2) == 0 {
+			relayers = append(relayers, senders[len(senders)-1])
+		}
 	}
 	relayers = append(relayers, []byte{0xee, 0x02})
+	// value flavour of the whole history: 0 = quotients saturating the 64-bit price field with ties on the floor,
+	// 1 = fees / values / balances around 2^63 and 2^64 (sums cross the 64-bit boundary), else mixed
+	flavour := rng.Intn(8)
 	nTx := 8 + rng.Intn(18)
 	type gdef struct {
 		hash     []byte
@@ -1051,6 +1060,10 @@ func genTxHistory(rng *rand.Rand, steps int, idx int) []string {
 			nonce = 1 << 32
 		}
 		price := pick(rng, uint64(1), 1, 2, 3, 10, 1000000000)
+		if rng.Intn(10) == 0 {
+			// boundary gas prices (same-nonce ordering compares them)
+			price = pick(rng, uint64(1)<<63, (uint64(1)<<63)-1, (uint64(1)<<63)+1, ^uint64(0), ^uint64(0)-5, 1<<32, (1<<32)+1, 0)
+		}
 		gasLimit := pick(rng, uint64(0), 1, 1, 2, 5, 10, 10, 50000, 50000)
 		if rng.Intn(12) == 0 || (mode == 4 && rng.Intn(2) == 0) {
 			gasLimit = pick(rng, uint64(1)<<63, ^uint64(0), (uint64(1)<<63)+1, 1<<62)
@@ -1068,10 +1081,33 @@ func genTxHistory(rng *rand.Rand, steps int, idx int) []string {
 			fee = big.NewInt(int64(rng.Intn(40)))
 		case 4:
 			fee = new(big.Int).SetUint64(^uint64(0))
+		case 5:
+			// a family of fees with the SAME huge quotient (≥ 2^64) and different remainders: floor(fee/gasLimit) ties
+			q := new(big.Int).Add(bigPow2(64), big.NewInt(5))
+			if gasLimit > 0 {
+				fee = new(big.Int).Mul(q, new(big.Int).SetUint64(gasLimit))
+				if gasLimit > 1 {
+					fee.Add(fee, new(big.Int).SetUint64(uint64(rng.Int63n(int64(gasLimit%(1<<62))+1))%gasLimit))
+				}
+			}
+		case 6:
+			// fees just below / at / above 2^64 so that sums of commitments cross the 64-bit boundary
+			fee = new(big.Int).Sub(bigPow2(64), big.NewInt(int64(rng.Intn(1000))))
 		}
-		value := pick(rng, "0", "0", "1", "7", "1000", "18446744073709551616")
+		if flavour == 0 && gasLimit > 0 && gasLimit < 1<<40 {
+			q := new(big.Int).Add(bigPow2(64), big.NewInt(int64(5+rng.Intn(2))))
+			fee = new(big.Int).Mul(q, new(big.Int).SetUint64(gasLimit))
+			fee.Add(fee, big.NewInt(rng.Int63n(int64(gasLimit))))
+		}
+		if flavour == 1 {
+			fee = pick(rng, new(big.Int).Sub(bigPow2(64), big.NewInt(int64(1+rng.Intn(50)))), new(big.Int).Add(bigPow2(63), big.NewInt(int64(rng.Intn(50)))), big.NewInt(int64(1+rng.Intn(50))))
+		}
+		value := pick(rng, "0", "0", "1", "7", "1000", "18446744073709551616", "18446744073709551615", "18446744073609551616", "9223372036854775808")
+		if flavour == 1 {
+			value = pick(rng, "0", "1", "18446744073709551615", "18446744073709551516", "9223372036854775808", "9223372036854775907")
+		}
 		relayer := []byte{}
-		if rng.Intn(4) == 0 {
+		if rng.Intn(4) == 0 || (flavour >= 6 && rng.Intn(2) == 0) {
 			relayer = relayers[rng.Intn(len(relayers))]
 			if bytes.Equal(relayer, sender) {
 				relayer = []byte{}
@@ -1095,8 +1131,11 @@ func genTxHistory(rng *rand.Rand, steps int, idx int) []string {
 			// a benign session: every account resolves, nonce 0, rich; at most one hazard
 			for _, a := range accounts {
 				nonce := 0
-				if rng.Intn(12) == 0 {
+				switch rng.Intn(10) {
+				case 0, 1:
 					nonce = 1
+				case 2:
+					nonce = 2
 				}
 				fmt.Fprintf(&sb, " a:%s:%d:%s", hx(a), nonce, bigPow2(100))
 			}
@@ -1119,6 +1158,11 @@ func genTxHistory(rng *rand.Rand, steps int, idx int) []string {
 			}
 			var bal *big.Int
 			d := defs[rng.Intn(len(defs))]
+			if flavour == 1 && rng.Intn(3) != 0 {
+				bal := pick(rng, new(big.Int).Sub(bigPow2(64), big.NewInt(int64(1+rng.Intn(100)))), new(big.Int).Add(bigPow2(63), big.NewInt(int64(rng.Intn(100)))), new(big.Int).Add(bigPow2(64), big.NewInt(int64(rng.Intn(100)))))
+				fmt.Fprintf(&sb, " a:%s:%d:%s", hx(a), nonce, bal)
+				continue
+			}
 			switch rng.Intn(16) {
 			case 0:
 				bal = big.NewInt(0)
@@ -1137,6 +1181,10 @@ func genTxHistory(rng *rand.Rand, steps int, idx int) []string {
 				bal = new(big.Int).Mul(d.fee, big.NewInt(2))
 			case 6:
 				bal = big.NewInt(int64(rng.Intn(200000)))
+			case 7:
+				bal = new(big.Int).SetUint64(^uint64(0) - uint64(rng.Intn(1000)))
+			case 8:
+				bal = new(big.Int).SetUint64(uint64(1)<<63 + uint64(rng.Intn(1000)))
 			default:
 				bal = bigPow2(100)
 			}
